@@ -171,6 +171,7 @@ def errName : Sp.Err → String
   | .unknownMethod => "unknownMethod" | .noScData => "noScData" | .noRecipient => "noRecipient" | .noValidSc => "noValidSc"
   | .bearerUnknownIrt => "bearerUnknownIrt" | .cameFrom => "cameFrom" | .eitherUnsigned => "eitherUnsigned"
   | .unknownBinding => "unknownBinding"
+  | .timeForm => "timeForm"
 
 def spToJson (o : Sp.Outcome) (ava : Option Ava) : Json :=
   match o with
